@@ -776,10 +776,19 @@ func (r *Raft) submitReadOnlyOperation(
 		return operationFuture
 	}
 
+	// The commit index of a new leader may be behind the commit index of its predecessors
+	// until it has committed an entry from its own term. Until then, every entry in the
+	// log must be applied before the operation is: that includes the entry that this leader
+	// appended for its term and therefore everything that was committed before.
+	readIndex := r.commitIndex
+	if !r.committedThisTerm() {
+		readIndex = r.log.LastIndex()
+	}
+
 	operation := &Operation{
 		Bytes:         operationBytes,
 		OperationType: readOnlyType,
-		readIndex:     r.commitIndex,
+		readIndex:     readIndex,
 		round:         r.heartbeatRound,
 	}
 	r.operationManager.pendingReadOnly[operation] = operationFuture.responseCh
